@@ -447,6 +447,9 @@ func verifyAndFillConfig(cfg *ResponseConfig, nowMS int) error {
 			return fmt.Errorf("timeShiftBufferDepth %ds is not less than %ds", tsbd, MAX_TIME_SHIFT_BUFFER_DEPTH_S)
 		}
 	}
+	if cfg.StopTimeS != nil && *cfg.StopTimeS < cfg.StartTimeS {
+		return fmt.Errorf("stop time %ds is before start time %ds", *cfg.StopTimeS, cfg.StartTimeS)
+	}
 	if cfg.ContMultiPeriodFlag && cfg.PeriodsPerHour == nil {
 		return fmt.Errorf("period continuity set, but not multiple periods per hour")
 	}
